@@ -125,7 +125,9 @@ def build_definitions():  # noqa: PLR0915
     defs.append(TDef("BlattWeisskopfHankelC_0", [("z", R)], R,
                      X.XTranslator(hooks=[hook_c])(ffm._formulate_blatt_weisskopf(sp.Integer(0), zr)),
                      doc="_formulate_blatt_weisskopf(0, z) for ANY real z (principal sqrt): what a symbolic L gives after L := 0"))
-    reals["BlattWeisskopfHankelC_0"] = Real(ffm._formulate_blatt_weisskopf(sp.Integer(0), zr), [zr], (zr,))
+    # (SymPy rewrites |exp(i sqrt z)| with arctan2, which numpy cannot evaluate for complex input and evaluates to nan
+    # for negative floats: the twin is compared with the mpmath evaluation of the same lambdified expression)
+    reals["BlattWeisskopfHankelC_0"] = Real(ffm._formulate_blatt_weisskopf(sp.Integer(0), zr), [zr], (), mp_only=lambda pt: True)
     # dispatcher over L and regenerated table
     lean_cases = "\n".join(f"  | {k} => BlattWeisskopfSquared_{k} z" for k in range(LMAX + 1))
     flt_cases = "\n".join(f"  | {k} => BlattWeisskopfSquared_{k} z" for k in range(LMAX + 1))
@@ -533,7 +535,11 @@ MANIFEST = {
         "vanish at the pole (+ the five concrete instantiations); every table entry is well-formed (decide) and equals the translated "
         "polynomial path, hence for all L ≤ 10: B_L²(1) = 1, B_L²(z) = z^L·(c_L/P_L(z)) with c_L > 0, P_L(0) > 0, and 0 ≤ B_L²(z) ≤ c_L "
         "for z ≥ 0; for each L ≤ 10 and z > 0 the polynomial path equals |h_L(1)|²/(|h_L(√z)|² z) built from the translated Hankel "
-        "function; builder() = relativistic_breit_wigner(m², m_R, Γ_R), builder(ff, edw, ρ) = relativistic_breit_wigner_with_ff(m², m_R, "
+        "function — z > 0 is necessary: for every z < 0 and L = 0 the defining expression with the principal sqrt is negative while "
+        "the polynomial path is 1 (bw_paths_differ_below_zero), which is the KNOWN FINDING 'symbolic-L Hankel path vs integer-L "
+        "polynomial path, z <= 0' that every run reproduces on the real code and prints as KNOWN-FINDING (strictly classified: only a "
+        "disagreement between the symbolic-L spelling and the integer-L spelling of one call at z <= 0; a disagreement at z > 0, or "
+        "between the integer-L path and the documented B_L² formulas for L <= 4 at any real z, is a violation); builder() = relativistic_breit_wigner(m², m_R, Γ_R), builder(ff, edw, ρ) = relativistic_breit_wigner_with_ff(m², m_R, "
         "Γ_R, m_a, m_b, L, d_R, ρ), ff-only = F × simple BW, edw-only = BW with the energy-dependent width, for every ff, rho, L and all "
         "real arguments; at the pole the full lineshape is i·F(m_R²). Discrete facts re-evaluated on the real objects each run: parameter "
         "defaults = resonance mass/width (radius 1) for all flags, identifier fallback, the three module-level convenience builders = the "
@@ -555,6 +561,6 @@ MANIFEST = {
         "(checked: the attribute must be the object passed in). In the history tie a builder result is canonicalised to the NAME of the "
         "public lineshape it is structurally equal to (for that call's resonance symbols, pool, L, phase-space class); the Lean state "
         "machine is hand-written (about 25 lines of logic). The non-vanishing hypotheses ρ(m0²) ≠ 0, F(m0²) ≠ 0 are hypotheses of the "
-        "width theorems (they fail e.g. exactly at threshold). Floating-point evaluation is executed, not modelled. A hardening oracle (tools/search/C12_exact.py) checks on every run: numbers vs symbols with L as int / Integer / substituted Symbol for every public callable, the pole with exact rationals, defaults, phase-space factors given as functions/lambdas/classes (width, function API, builder), compound arguments in generated numpy code. Observed on the pinned tree and NOT counted: the symbolic-L Hankel path differs from the integer-L polynomial path for z <= 0 (below threshold), outside the domain z > 0 on which the clause is proved (notes/findings_C12.md)."
+        "width theorems (they fail e.g. exactly at threshold). Floating-point evaluation is executed, not modelled. A hardening oracle (tools/search/C12_exact.py) checks on every run: numbers vs symbols with L as int / Integer / substituted Symbol for every public callable, the pole with exact rationals, defaults, phase-space factors given as functions/lambdas/classes (width, function API, builder), compound arguments in generated numpy code. The sub-threshold disagreement of the symbolic-L Hankel path with the integer-L polynomial path (z <= 0) is a known finding (known_findings.json, notes/findings_C12.md), matched by signature."
     ),
 }
